@@ -6,6 +6,9 @@ props=[json.loads(l) for l in open('/verif/properties.jsonl')]
 ids=[p['id'] for p in props]
 TB="trusted base: the gosym executor written for this task (validated by `gosym selftest` and by native replay of every counterexample), golang.org/x/tools/go/ssa v0.29.0, z3 4.8.12 / z3 5.1.0 / cvc5 1.0; environment stubs of DESIGN.md §3.6; bounds as listed in the evidence file"
 checks={
+ "C09": dict(level="model_checking", ref="§5 C09",
+   text="The generators run in tape mode: the real randomUint32/randomUint32n are executed on symbolic source bytes, and the stub of the OS source fails at a harness-chosen read (every position within the bound) delivering 0..3 bytes, or returns short successful reads when the code calls the Reader directly. Assertions: after a failed read the call panics or returns an error and no password; every random word is built from four fresh bytes; two runs of one recipe on one stream agree. A path that reaches an unmodelled environment function (math/rand, time, ...) is stopped and reported, and a native determinism run (same recipe, same bytes, twice) is the confirmation channel for it.",
+   technique="bounded symbolic execution of go/ssa + SMT (QF_BV) with fault injection at every read position; native replay and native determinism run"),
  "C08": dict(level="model_checking", ref="§5 C08",
    text="NewWordList, WLRecipe.Entropy, Size and isAllCapitalizable are executed from their SSA with every map iteration order inside NewWordList as an explicit choice point, on lists of symbolic ASCII words (duplicates, twins, caseless and already-capitalised words arise as solver-feasible forks) and on concrete lists with non-ASCII, multi-part and interior-capital words; the list is built twice and from a permuted/repeated copy, and all Entropy() values must be bit-identical and equal the reference formula evaluated on the reference kept set.",
    technique="bounded symbolic execution of go/ssa + SMT (QF_BV) with map-iteration order as a choice point; order-dependent counterexamples replayed natively until the runtime produces the order"),
